@@ -532,8 +532,8 @@ PROPS["C20"] = dict(
 
 
 PROPS["C17"]["extra"] = [race_step(dict(
-    quick=["ttstress 65536 4 3 2 20000 $SEED", "ttstress 1024 5 2 4 20000 $SEED"],
-    thorough=["ttstress 65536 4 3 2 200000 $SEED", "ttstress 1024 6 4 4 200000 $SEED", "ttstress 64 8 4 2 200000 $SEED", "ttstress 4096 6 3 200 200000 $SEED"]))]
+    quick=["ttstress 65536 4 3 2 20000 $SEED", "ttstress 1024 5 2 4 20000 $SEED", "resetrace 12 1"],
+    thorough=["ttstress 65536 4 3 2 200000 $SEED", "ttstress 1024 6 4 4 200000 $SEED", "ttstress 64 8 4 2 200000 $SEED", "ttstress 4096 6 3 200 200000 $SEED", "resetrace 60 1", "resetrace 40 2"]))]
 PROPS["C16"]["extra"] = [race_step(dict(
     quick=[],
     thorough=["uci plain 0 ; gate 200 ;; > position startpos ;; > go depth 4 ;; wait-parked ;; slow 200 ;; > position startpos moves e2e4 ;; > go depth 2 ;; sleep 20 ;; release ;; wait-bestmove 20000 ;; quiet 1500 ;; sync",
